@@ -206,7 +206,11 @@ def scanned_codebases(ctx, hook, rng, n):
                 rel = os.path.join(rng.choice(["", "pkg", "pkg/core", "lib/a/b", "-attic"]), f"m{k}{canon.EXT[lang]}")
                 os.makedirs(os.path.dirname(os.path.join(root, rel)), exist_ok=True)
                 with open(os.path.join(root, rel), "w") as f:
-                    f.write(canon.file_with_functions(lang, [max(2, rng.choice([3, 16, 31, 61, 12])) for _ in range(rng.randint(0, 3))], prefix=f"s{k}x"))
+                    if rng.random() < 0.5:
+                        # nested functions, one-liners, closures: a physical line can carry tokens of two functions
+                        f.write(canon.generate(lang, f"c07:{i}:{k}:{rng.random()}", None, target_functions=3).text)
+                    else:
+                        f.write(canon.file_with_functions(lang, [max(2, rng.choice([3, 16, 31, 61, 12])) for _ in range(rng.randint(0, 3))], prefix=f"s{k}x"))
                 names.append(rel)
             history = []
             for step in range(rng.randint(2, 4)):
